@@ -376,3 +376,90 @@ func (f *family) sem() string {
 	}
 	return b.String()
 }
+
+// ---- related texts: small edits that often land in the same equivalence
+// class (or right next to it) under the scheme's normalisation
+
+var aliasPairs = [][2]string{{"alpha", "a"}, {"beta", "b"}, {"milestone", "m"}, {"rc", "cr"}, {"ga", "final"}, {"final", "release"},
+	{"rc", "c"}, {"rc", "pre"}, {"pre", "preview"}, {"post", "rev"}, {"rev", "r"}, {"-", ".pre."}, {".", "-"}, {"-", "."}, {".0", ""}, {"0", "00"}}
+
+func (f *family) mutate(s string, scheme string) string {
+	r := f.r
+	switch k := r.Intn(12); {
+	case k < 3:
+		suffixes := []string{".0", "-0", ".0.0", "0", ".00"}
+		switch scheme {
+		case "maven":
+			suffixes = append(suffixes, "-ga", ".final", "-release", "-", ".", "-0.0", ".0-0", "-sp", "-alpha", ".alpha", ".sp", "-1")
+		case "gem":
+			suffixes = append(suffixes, ".a", ".0.a", "-a", ".pre", " ", ".0.0.0")
+		case "pep440":
+			suffixes = append(suffixes, ".post0", ".dev0", "a0", "rc0", ".post1", ".dev1", "+local", "-1", "a1", ".0a1")
+		case "rhctag", "rpm":
+			suffixes = append(suffixes, "-1", "~rc1", "-0", ".x", "~", "-1.el8")
+		}
+		return s + suffixes[r.Intn(len(suffixes))]
+	case k < 5:
+		// swap an alias / separator
+		p := aliasPairs[r.Intn(len(aliasPairs))]
+		if r.Chance(1, 2) {
+			p[0], p[1] = p[1], p[0]
+		}
+		if p[0] != "" && strings.Contains(s, p[0]) {
+			return strings.Replace(s, p[0], p[1], 1)
+		}
+		return s + "." + f.num()
+	case k < 7:
+		// change the case of one letter
+		b := []byte(s)
+		for tries := 0; tries < 8 && len(b) > 0; tries++ {
+			i := r.Intn(len(b))
+			switch {
+			case b[i] >= 'a' && b[i] <= 'z':
+				b[i] -= 32
+				return string(b)
+			case b[i] >= 'A' && b[i] <= 'Z':
+				b[i] += 32
+				return string(b)
+			}
+		}
+		return s + "0"
+	case k < 9:
+		// leading zero on, or +1 to, some digit run
+		b := []byte(s)
+		for tries := 0; tries < 8 && len(b) > 0; tries++ {
+			i := r.Intn(len(b))
+			if b[i] >= '0' && b[i] <= '9' {
+				if r.Chance(1, 2) {
+					return s[:i] + "0" + s[i:]
+				}
+				if b[i] < '9' {
+					b[i]++
+				} else {
+					b[i] = '0'
+				}
+				return string(b)
+			}
+		}
+		return "0" + s
+	case k < 10:
+		if len(s) > 1 {
+			return s[:len(s)-1]
+		}
+		return s + "1"
+	case k < 11:
+		if scheme == "rhctag" || scheme == "rpm" || scheme == "pep440" {
+			if strings.HasPrefix(s, "v") {
+				return s[1:]
+			}
+			return "v" + s
+		}
+		return " " + s
+	default:
+		if len(s) > 2 {
+			i := 1 + r.Intn(len(s)-1)
+			return s[:i] + f.pick(".", "-", ".0.", "-0-", ".0", "0") + s[i:]
+		}
+		return s + ".1"
+	}
+}
